@@ -157,6 +157,29 @@ class C09(vlib.Check):
             if n in (0, 1, 2, 15, 16, 17):
                 for c in (0x00, 0x7f, 0x80, 0xc3, 0xff):
                     yield 'fill %d %02x' % (n, c)
+        # ---- long separators / patterns (8..17 bytes: word-at-a-time comparison territory) whose near-occurrences in
+        # the subject differ from them only in bit 5 of some bytes: ASCII letters (must match case-insensitively only),
+        # non-letters such as '[' / '{', '@' / '`', NUL / space, and high bytes such as C9 / E9 (must never match)
+        flip_classes = [b'abcXYZ', b'[{@`', b'\x00 ', b'\xc9\xe9\xc1\xda', b'_\x7f', b'19']
+        for n in (8, 9, 15, 16, 17):
+            for ci_flip in flip_classes:
+                for rep in range(2 if not thorough else 12):
+                    base = bytes(rng.choice(b'abcxyz019,;') for _ in range(n))
+                    pos = rng.randrange(n)
+                    sep = bytearray(base)
+                    sep[pos] = rng.choice(ci_flip)
+                    if rng.random() < 0.5:
+                        sep[(pos + 3) % n] = rng.choice(ci_flip)
+                    sep = bytes(sep)
+                    near = bytearray(sep)
+                    near[pos] ^= 0x20
+                    near = bytes(near)
+                    subj = b'p' + near + b'-' + sep + b'q' + near.swapcase() + b'r'
+                    for cs in ('cs', 'ci'):
+                        yield 'split_s %s %s %d %s' % (hx(subj), hx(sep), SIZE_MAX, cs)
+                        yield 'replace_ss %s %s %s %s' % (hx(subj), hx(sep), hx(b'#'), cs)
+                        if cstr_ok(sep) and cstr_ok(subj) and all(c < 0x80 for c in subj):
+                            yield 'split_z %s %s %d %s' % (hx(subj), hx(sep), 2, cs)
         # ---- seeded
         for _ in range(1200 if not thorough else 25000):
             n = rng.choice([6, 7, 9, 12, 15, 16, 17, 18, 31, 33, 40, 100, 400]) if rng.random() < 0.4 else rng.randrange(4, 12)
